@@ -5,7 +5,7 @@ R06.2 in-circuit transcript equals the native transcript (alignment, shared with
 R06.3 witness-assignment routines write every field of the proof / verifier-data target structs from the same-named value field
 R06.4 native and target opening sets are flattened in the same field order (they are paired positionally)
 """
-from . import ob, flow, tables_fri, tables_plonk, tables_merkle, transcript, c04
+from . import ob, flow, tables_fri, tables_plonk, tables_merkle, transcript, c04, assign
 from .facts import walk, parse_path
 
 SET_SINKS = {'set_target', 'set_extension_target', 'set_extension_targets', 'set_hash_target', 'set_cap_target', 'set_bool_target', 'set_target_arr', 'set_targets'}
@@ -24,6 +24,41 @@ def field_seq(fn):
 def struct_fields(F, path):
     a = F.adts.get(path)
     return [f for f, t, _ in a['variants'][0]['f']] if a else None
+
+
+CFG_TYPES = ('FriConfig', 'FriParams', 'CircuitConfig', 'CommonCircuitData', 'StarkConfig')
+CIRCUIT_FILES = ('recursion/recursive_verifier.rs', 'plonk/get_challenges.rs', 'fri/recursive_verifier.rs', 'batch_fri/recursive_verifier.rs', 'fri/challenges.rs', 'plonk/vanishing_poly.rs',
+                 'starky/src/recursive_verifier.rs', 'starky/src/get_challenges.rs', 'recursion/conditional_recursive_verifier.rs', 'recursion/cyclic_recursion.rs', 'recursion/dummy_circuit.rs')
+# (function, callee) pairs that legitimately use the outer configuration
+OUTER_CONFIG_OK = {('check_recursion_config', 'new_from_config'): 'builds a scratch circuit with the OUTER configuration to test whether it can host a recursive verifier'}
+
+
+def inner_config_source(F, ck):
+    from .facts import ty_adt, pat_binds
+    n = 0
+    for fn in sorted(F.fns.values(), key=lambda f: f.qual):
+        if fn.crate not in ('plonky2', 'starky') or fn.body is None or not fn.file.endswith(CIRCUIT_FILES):
+            continue
+        ptys = [fn.types[b['t']] if b.get('t') is not None else '' for p in fn.params for b in pat_binds(p)]
+        if not any('CircuitBuilder' in t for t in ptys):
+            continue
+        fl = flow.Flow(F, fn, opaque=('CircuitBuilder',))
+        for e in fl.events:
+            if e.kind != 'call' or (e.callee or '').startswith(('core::', 'std::')) or e.name in ('assert_failed',):
+                continue
+            for v, nd in zip(e.args, e.node.get('a', [])):
+                t = ty_adt(fn.ty(nd) or '') or ''
+                if t not in CFG_TYPES:
+                    continue
+                n += 1
+                roots = {a[2:].split('.')[0].split('[')[0] for a in flow.flat(v) if a.startswith('p:')} - {'self'}
+                if (fn.name, e.name) in OUTER_CONFIG_OK:
+                    ck.ob('R06.6', 'cfg:%s:%s:%s' % (fn.qual, e.name, t), True, 'reviewed: ' + OUTER_CONFIG_OK[(fn.name, e.name)], e.loc())
+                    continue
+                ck.ob('R06.6', 'cfg:%s:%s:%s' % (fn.qual, e.name, t), bool(roots), 'from parameter %s' % ','.join(sorted(roots)) if roots else
+                      'OUTER CONFIGURATION USED: %s passes a %s to %s that does not derive from any of its parameters (it comes from the builder\'s own configuration): the inner proof is then verified under the outer '
+                      'circuit\'s parameters (query count, grinding bits, arities), which differ whenever inner and outer configurations differ' % (fn.qual, t, e.q), e.loc())
+    ck.floor('R06.6', 'configuration-typed arguments in in-circuit verifier functions', n, 50)
 
 
 def run(F, ck, tier):
@@ -123,6 +158,24 @@ def run(F, ck, tier):
               'OpeningSet::to_fri_openings flattens %s but OpeningSetTarget::to_fri_openings flattens %s: set_fri_openings pairs them positionally, so openings would be assigned to the wrong targets' % (sa, sb), '%s:%d' % (b[0].file, b[0].line))
         fs = set(struct_fields(F, 'plonky2::plonk::proof::OpeningSet') or [])
         ck.ob('R06.4', 'complete:plonk', fs <= set(sa), 'all %d opening fields flattened' % len(fs) if fs <= set(sa) else 'to_fri_openings omits %s' % sorted(fs - set(sa)), '%s:%d' % (a[0].file, a[0].line))
+    # ---- R06.6
+    ck.rule('R06.6', 'the in-circuit verifier is parameterised by the INNER circuit: every configuration-typed argument (FriConfig, FriParams, CircuitConfig, CommonCircuitData, StarkConfig) passed by an in-circuit '
+                     'verifier function derives from one of its parameters, never from the outer builder\'s own configuration')
+    inner_config_source(F, ck)
+    # ---- R06.8
+    ck.rule('R06.8', 'the in-circuit table polynomial pads like the native one: the symbolic interval of the padding count in get_lut_poly_circuit equals that of get_lut_poly')
+    from . import c08
+    pb = {sw.name: res for sw, n, res in c08.pad_bounds(F) if sw is not None and n is not None and not isinstance(res, str)}
+    if 'get_lut_poly' in pb and 'get_lut_poly_circuit' in pb:
+        okp = pb['get_lut_poly'] == pb['get_lut_poly_circuit']
+        ck.ob('R06.8', 'lut-padding:native~circuit', okp, 'both pad with [%s, %s] (a*num_slots+b pairs)' % pb['get_lut_poly'] if okp else
+              'get_lut_poly pads with a count in %s but get_lut_poly_circuit with a count in %s (pairs (a, b) mean a*num_slots+b): the in-circuit verifier evaluates a different table polynomial than the native one, '
+              'so it rejects valid lookup proofs (or accepts ones the native verifier rejects) whenever the table length is a multiple of the slot count' % (pb['get_lut_poly'], pb['get_lut_poly_circuit']))
+    else:
+        ck.observe('R06.8 not applicable: padding computation not found in both get_lut_poly variants (%s)' % sorted(pb))
+    # ---- R06.7
+    ck.rule('R06.7', 'witness assignment pairs targets with proof values exactly: zip_eq, fixed-size arrays, or an Err-returning guard that rejects a value sequence longer than its targets')
+    assign.check(F, ck, 'R06.7')
     ck.decided += ['each native PLONK/FRI check has a circuit twin with corresponding sources', 'circuit transcript = native transcript', 'witness assignment covers and pairs all target fields', 'opening order native = target']
     ck.undecided += ['equality of the accepted sets (behavioural)', 'gadget-level correctness of the in-circuit arithmetic']
     return 'Decides structural necessary conditions of C06: twin obligations, transcript agreement, witness-assignment coverage/pairing and opening-order agreement. Does not decide equality of the accepted sets.'
